@@ -3642,6 +3642,24 @@ class StateEngine(object):
         outside of their own “States” field. TODO use current_state_machine to
         check that state transitions only occur within the correct "States".
         """
+        def illegal_state_machine(message):
+            """
+            Fail the execution because its State Machine cannot be interpreted
+            at this point. If the event belongs to a Parallel Branch or Map
+            Iterator whose state has already failed it is dropped like any
+            other event of that branch, so that the execution is not failed
+            (and ended) a second time.
+            """
+            self.logger.error(message)
+            if "Branch" in context["State"] and self.branch_has_terminated(
+                "", context, id, timeout, redelivered
+            ):
+                return
+            handle_error({}, "States.Runtime", message)
+            self.event_dispatcher.acknowledge(id)
+
+        timeout = ASL.get("TimeoutSeconds", self.execution_ttl)
+
         force_full_lookup = "Branch" in context["State"]
         if (not isinstance(ASL.get("States"), dict) or
             not isinstance(current_state, str)):
@@ -3649,9 +3667,7 @@ class StateEngine(object):
                        "\"{}\" in: Illegal State Machine.").format(
                         execution_arn, current_state
                       )
-            self.logger.error(message)
-            handle_error({}, "States.Runtime", message)
-            self.event_dispatcher.acknowledge(id)
+            illegal_state_machine(message)
             return
 
         state, current_state_machine, state_path = find_state(
@@ -3662,9 +3678,7 @@ class StateEngine(object):
                        "state \"{}\": Illegal State Machine.").format(
                         execution_arn, current_state
                       )
-            self.logger.error(message)
-            handle_error({}, "States.Runtime", message)
-            self.event_dispatcher.acknowledge(id)
+            illegal_state_machine(message)
             return
 
         """
@@ -3695,9 +3709,7 @@ class StateEngine(object):
                        "made in: Illegal State Machine.").format(
                         execution_arn, current_state
                       )
-            self.logger.error(message)
-            handle_error({}, "States.Runtime", message)
-            self.event_dispatcher.acknowledge(id)
+            illegal_state_machine(message)
             return
 
         # Determine the ASL state type of the current state.
@@ -3706,9 +3718,7 @@ class StateEngine(object):
                        "Illegal State Machine.").format(
                         execution_arn, current_state
                       )
-            self.logger.error(message)
-            handle_error({}, "States.Runtime", message)
-            self.event_dispatcher.acknowledge(id)
+            illegal_state_machine(message)
             return
 
         state_type = state["Type"]
